@@ -255,6 +255,22 @@ def run_case(spec):
                     counters['cli_tally_checks'] = counters.get('cli_tally_checks', 0) + 1
                     if tally != want:
                         viol.append({'kind': 'tally-wrong', 'msg': f'--threads {t} faults {key} (transcript order {tx_order}): printed tally {tally} expected {want}'})
+            # the same faults WITHOUT --skip-failed inside ppft workers: the command must fail and leave no FASTA claiming success
+            t = rng.choice([2, 3])
+            outp = f'{wd}/clinf{t}.fasta'
+            argv = ['callVariant', '-i'] + paths + ['-g', f'{wd}/genome.fasta', '-a', f'{wd}/annotation.gtf', '-p',
+                                                     f'{wd}/proteome.fasta', '-o', outp, '--threads', str(t),
+                                                     '--max-variants-per-node', '-1', '--additional-variants-per-misc', '-1',
+                                                     '--cleavage-exception', 'None']
+            rc, so, se = common.run_cli(argv, timeout=600, guard=True, extra_env={'MOPEPGEN_VERIF_FAIL': key})
+            if rc is not None:
+                counters['cli_abort_runs'] = counters.get('cli_abort_runs', 0) + 1
+                if rc == 0:
+                    viol.append({'kind': 'failure-not-fatal-without-skip-failed',
+                                 'msg': f'--threads {t} faults {key} without --skip-failed: exit 0' +
+                                        (f', FASTA with {len(drivers.read_fasta(outp))} records written' if os.path.exists(outp) else '')})
+                elif os.path.exists(outp):
+                    viol.append({'kind': 'fasta-written-despite-abort', 'msg': f'--threads {t} faults {key}: exit {rc} but {outp} exists'})
         feat = (len(units), sum(u[0] == 'main' for u in units), sum(u[0] == 'fusion' for u in units),
                 sum(u[0] == 'circ' for u in units), len(fault_sets), bool(spec.get('cli')))
         return {'nontrivial': True, 'feature': feat, 'violations': viol[:12], 'counters': counters,
@@ -410,6 +426,6 @@ def check(rep, tier, seed, specs=None, n_override=None):
     rep.absorb(results, lost)
     rep.exhaustive = True
     rep.extra['exhaustive_scope'] = 'all single faults of every generated case (and all pairs up to the per-case cap)'
-    for k in ('fault_runs', 'abort_runs', 'cli_fault_runs', 'cli_tally_checks', 'natural_runs', 'natural_abort_runs', 'natural_cli_runs'):
+    for k in ('fault_runs', 'abort_runs', 'cli_fault_runs', 'cli_tally_checks', 'cli_abort_runs', 'natural_runs', 'natural_abort_runs', 'natural_cli_runs'):
         if not rep.counters.get(k):
             rep.inconclusive.append(f'monitor {k} had zero evaluations')
